@@ -34,19 +34,19 @@ def random_workload(ctx, red):
     rng = ctx.rng
     if red:
         mode = rng.choice([1, 2])
-        w = rng.choice([1, 2])
+        w = rng.choice([1, 2, 1, 2, 0])          # gain 2^-w; w = 0: the average IS the current queue length
         if mode == 2:
-            lo = rng.choice([0, 1, 2]); hi = lo + rng.choice([1, 2, 4]); ql = hi + rng.choice([0, 1, 2])
+            lo = rng.choice([0, 1, 2]); hi = lo + rng.choice([1, 2, 4, 0]); ql = hi + rng.choice([0, 1, 2])   # (equal thresholds: no ramp)
             if rng.random() < 0.2:
                 ql = max(1, rng.choice([lo, lo + 1, hi - 1]))        # hard limit below the maximum threshold
         else:
-            lo = rng.choice([1, 2, 4]); hi = lo + rng.choice([2, 4, 8]); ql = hi + rng.choice([0, 2, 4])
+            lo = rng.choice([1, 2, 4]); hi = lo + rng.choice([2, 4, 8, 0]); ql = hi + rng.choice([0, 2, 4])
             if rng.random() < 0.2:
                 ql = max(1, rng.choice([lo, lo + 1, hi - 1]))
         pn, pd = rng.choice([(1, 2), (1, 4), (1, 1), (3, 4)])
         cfg = {"mode": mode, "qlimit": ql, "K": rng.choice([0, 1, 2, 4]), "red": 1, "minth": lo, "maxth": hi,
                "pn": pn, "pd": pd, "w": w}
-        n = rng.randint(2, 12 // w)
+        n = rng.randint(2, 12 // max(w, 1))
     else:
         mode = rng.choice([0, 1, 1, 2, 2])
         ql = 0 if mode == 0 else (rng.choice([1, 2, 3, 5, 8, 12]) if mode == 1 else rng.choice([1, 2, 3, 4]))
